@@ -346,7 +346,7 @@ class Report:
             vdir = os.path.join(wd, "violations")
             os.makedirs(vdir, exist_ok=True)
             seen = set()
-            for i, (key, desc, case) in enumerate(self.violations[:50]):
+            for i, (key, desc, case) in enumerate(self.violations[:400]):
                 path = os.path.join(vdir, "v%03d.json" % i)
                 json.dump({"property": self.pid, "key": key, "desc": desc, "case": case}, open(path, "w"), indent=1)
                 if key in seen:
